@@ -153,7 +153,7 @@ func (w *sworld) caller(i int) {
 	if w.isEnding() {
 		return
 	}
-	if !lock.IsStale() {
+	if !lock.IsStale() && !t.Fails {
 		lock.SetCommitTS(t.Commit)
 	}
 	w.mu.Lock()
